@@ -30,6 +30,7 @@ def run(repo, run, tier):
     every_return_steps(repo, run)
     layout(repo, run)
     stage_args(repo, run)
+    stage_time_uncast(repo, run)
     increment(repo, run)
     newton(repo, run)
     splitting_clock(repo, run)
@@ -40,6 +41,49 @@ def run(repo, run, tier):
     slots(repo, run, rule_id="C02.7")
     current_integrator_is_called(repo, run)
     own_stage_storage(repo, run)
+
+
+def stage_time_uncast(repo, run):
+    """'the stage slopes are the right-hand side at t + c_i h': the time handed to the right-hand side keeps the precision of the clock.  A cast of the stage time to the
+    dtype of the table / the state (float32 state with a float64 clock at t = 3000, h = 1e-2) rounds t + c_i h to the resolution of the narrower type (1.2e-4 there):
+    every stage of a time-dependent right-hand side is then evaluated at the wrong time."""
+    rid = run.rule("C02.11", "the time argument of every right-hand-side evaluation of the Runge-Kutta stage code (compute_step, algebraic_system, the splitting step) is free of "
+                             "dtype conversions to anything but the clock's own dtype", floor=3)
+    sites = [(RKM, "compute_step"), (ITY, "RungeKuttaIntegrator.algebraic_system"), (ITY, "ExplicitSymplecticIntegrator.step")]
+    for rel, q in sites:
+        fn = repo.maybe(rel, q)
+        if fn is None:
+            raise AnalysisError("%s not found" % q)
+        env = inline_locals(fn)
+        params = [a.arg for a in fn.args.args]
+        rname = "rhs" if "rhs" in params else None
+        calls = [c for c in ast.walk(fn) if isinstance(c, ast.Call) and isinstance(c.func, ast.Name) and c.func.id == (rname or "rhs") and c.args]
+        if not calls:
+            raise AnalysisError("%s: no right-hand-side evaluation found" % q)
+        for c in calls:
+            a, k = c.args[0], 0
+            seen = []
+            def casts(e, depth=0):
+                out = []
+                for x in ast.walk(e):
+                    if isinstance(x, ast.Name) and x.id in env and depth < 6 and x.id not in seen:
+                        seen.append(x.id)
+                        out += casts(env[x.id], depth + 1)
+                    if isinstance(x, ast.Call):
+                        nm = (dotted(x.func) or src(x.func)).split(".")[-1]
+                        dt = [kw.value for kw in x.keywords if kw.arg == "dtype"]
+                        if nm in ("astype", "to", "type") and x.args:
+                            dt = dt or [x.args[-1]]
+                        for d in dt:
+                            if not any(t_ in src(d) for t_ in ("initial_time", "timestep", "current_time", "time.dtype")):
+                                out.append((x, src(d)))
+                return out
+            bad = casts(a)
+            run.judged(rid, "%s: time argument `%s` of the right-hand side carries no foreign dtype conversion" % (q, src(a)[:50]), ok=not bad)
+            for x, d in bad[:1]:
+                run.report("C02.11", rel, c, "the time handed to the right-hand side is converted to dtype `%s` (`%s`): with a clock wider than that type (float64 time, float32 state) "
+                                             "the stage time t + c_i*h is rounded to the resolution of the narrower type - at t = 3000 that is 1.2e-4, of the order of the step - and "
+                                             "the stage slopes of a time-dependent right-hand side are evaluated at the wrong times" % (d, src(x)[:70]), text="stage time cast to %s" % d)
 
 
 def every_return_steps(repo, run):
@@ -345,6 +389,26 @@ def stage_args(repo, run, rule_id="C02.2"):
             cs = [c for c in ast.walk(f2) if isinstance(c, ast.Call) and isinstance(c.func, ast.Name) and c.func.id == Q[2]]
         else:
             cs = [c for c in ast.walk(f2) if isinstance(c, ast.Call) and dotted(c.func) == Q[2] + ".jac"]
+        if not cs and meth == "algebraic_system":
+            # no evaluation of the call's own right-hand side: is the residual evaluated through a callable kept on the instance (a partial / closure bound to the
+            # constants of an earlier call)?  Such a binding captures the VALUES of the constants; a cache test by identity of the dict does not see an in-place change
+            kept = []
+            for c_ in ast.walk(f2):
+                if isinstance(c_, ast.Call):
+                    f_ = c_.func
+                    k_ = 0
+                    while isinstance(f_, ast.Name) and f_.id in env2 and k_ < 4:
+                        f_, k_ = env2[f_.id], k_ + 1
+                    if is_self_attr(f_) and len(c_.args) >= 2:
+                        kept.append((c_, f_.attr))
+            if kept:
+                c_, attr = kept[0]
+                run.judged(rid, "algebraic_system evaluates the right-hand side it was called with", ok=False)
+                run.report(rule_id, ITY, c_, "the stage residual is evaluated through `self.%s`, a callable kept on the integrator, not through the `%s` and `%s` of this call: what "
+                                             "is kept was bound to the values the constants had when it was built, so after an in-place change of the constants (same dict object) "
+                                             "between two calls the stage equations are those of the OLD right-hand side while the rest of the step uses the new one" % (attr, Q[2], Q[6]),
+                           text="stage residual through kept callable self.%s" % attr)
+                return
         if len(cs) != 1:
             raise AnalysisError("%s: expected one rhs evaluation, found %d" % (meth, len(cs)))
         c = cs[0]
@@ -736,6 +800,8 @@ def splitting_clock(repo, run, rule_id="C02.5"):
                 return Poly.atom("F%d" % s) if not any(c_[0] == s for c_ in calls[:-1]) else Poly.atom("F%d_%d" % (s, k))
             if f in ("copy", "asarray", "array") and n.args:
                 return ev(n.args[0], s)
+            if f in ("zeros_like", "zeros"):
+                return Poly.const(0)
         # anything else is an opaque value: harmless unless it reaches an argument of the right-hand side (then the rule cannot decide)
         return Poly.atom("?" + src(n)[:60])
 
